@@ -67,7 +67,8 @@ def generate(rng, tier):
     # "again": the caller keeps the select dictionary and passes the same object to a second load (a fresh dataset of the same output)
     return {"world": p, "preds": preds, "also": rng.choice([None, None, "part_off", "sink_off", "mesh_vars"]), "again": rng.random() < 0.3,
             # predicates may be any callable: plain function, functools.partial, object with __call__, bound method
-            "callable": rng.choice(CALLABLE_KINDS)}
+            "callable": rng.choice(CALLABLE_KINDS),
+            "before": gen_level_pred(rng, p["levelmin"], p["levelmax"]) if rng.random() < 0.25 else None}
 
 
 def describe(case):
@@ -104,11 +105,19 @@ def execute(case, stats):
         elif case["also"] == "sink_off":
             select["sink"] = False
         sel_items = None
+        ds0 = None
+        if case.get("before"):
+            # the dataset object has already made a load with another level predicate (not judged here)
+            stats.inc("probe.earlier_load_with_another_level_predicate_on_the_dataset")
+            try:
+                ds0, _ = disk.load(select={"mesh": {"level": level_func(case["before"])}})
+            except Exception:
+                ds0 = None
         for attempt in (["first", "again"] if case.get("again") else ["first"]):
             if attempt == "again":
                 stats.inc("probe.second_load_with_the_same_select_object")
             n0 = len(viol)
-            _one_load(case, stats, disk, select, sel_items, L, attempt, V, res)
+            _one_load(case, stats, disk, select, ds0 if attempt == "first" else None, L, attempt, V, res)
             if len(viol) > n0:
                 for v in viol[n0:]:
                     if attempt == "again":
@@ -120,6 +129,7 @@ def execute(case, stats):
 
 
 def _one_load(case, stats, disk, select, sel_items, L, attempt, V, res):
+    """`sel_items`: the dataset object to load on (None: a fresh one)."""
     p = case["world"]
     pr = case["preds"]
     w = disk.world
@@ -127,7 +137,7 @@ def _one_load(case, stats, disk, select, sel_items, L, attempt, V, res):
     if True:
         try:
             seam = FsSeam()
-            ds, out = disk.load(seam=seam, select=select)
+            ds, out = disk.load(ds=sel_items, seam=seam, select=select)
         except Exception as e:
             import traceback
 
@@ -177,7 +187,7 @@ def measure(case):
     pr = case["preds"]
     return (p["ncpu"], p["levelmax"], p["ndim"], len(pr["values"]) + len(pr["positions"]) + len(pr.get("intervals", [])), len(p["hydro_vars"]), p["maxcells"], p["nboundary"],
             int(bool(p["grav"])) + int(bool(p["rt_vars"])) + int(p["part"] is not None) + int(p["sink"] is not None),
-            int(p["units"] != [1.0, 1.0, 1.0]), int(p["ghost_p"] * 10), int(case["also"] is not None), int(pr["level"]["kind"] != "le"), int(bool(case.get("again"))) + int(case.get("callable") not in (None, "function")))
+            int(p["units"] != [1.0, 1.0, 1.0]), int(p["ghost_p"] * 10), int(case["also"] is not None), int(pr["level"]["kind"] != "le"), int(bool(case.get("again"))) + int(case.get("callable") not in (None, "function")) + int(bool(case.get("before"))))
 
 
 def reductions(case, viol):
@@ -202,6 +212,8 @@ def reductions(case, viol):
         yield dict(case, again=False)
     if case.get("callable") not in (None, "function"):
         yield dict(case, callable="function")
+    if case.get("before"):
+        yield dict(case, before=None)
     if pr["level"]["kind"] != "le":
         for k in range(1, case["world"]["levelmax"] + 1):
             yield dict(case, preds=dict(pr, level={"kind": "le", "k": k}))
